@@ -98,7 +98,9 @@ const CORPUS: [(&str, &str); 7] = [
 ];
 
 pub fn new_vm(host: &[&str]) -> Vm<'static, Aux> {
-    let mut vm = Vm::new(Aux::default()).unwrap().with_max_iter(400_000);
+    // VERIF_MAX_ITER: a smaller instruction budget (C06 skips long runs early)
+    let max_iter = std::env::var("VERIF_MAX_ITER").ok().and_then(|s| s.parse().ok()).unwrap_or(400_000);
+    let mut vm = Vm::new(Aux::default()).unwrap().with_max_iter(max_iter);
     vm.runtime_data = RuntimeData::new(256 * 1024 * 1024, 16 * 1024, 400).unwrap();
     for h in host {
         match *h {
